@@ -44,6 +44,7 @@ def _hist(draw, big):
     return {"dim": dim, "ops": [list(o) for o in ops], "unit": unit, "p0": p0,
             # how the initial populations are handed over: float array, integer array, list of Python ints
             "p0_type": draw(st.sampled_from(["float", "float", "int", "list"])),
+            "corrections_first": draw(st.sampled_from([False, False, True])),
             "s0": draw(st.sampled_from([0, 0, 5, -4])),
             "dt": draw(st.sampled_from([0.25, 0.5, 1.0, 2.0])),
             "nt": draw(st.integers(5, 60 if not big else 200)),
@@ -154,6 +155,14 @@ def check_case(case, ctx):
         kind = "mult%s/%s" % ("1" if mult == 1 else ">1",
                               "shift0" if shift == 0 else ("on-grid" if shift % mult == 0 else "off-grid"))
         ctx.label("sub:" + kind)
+        if case.get("corrections_first"):
+            # the perturbative corrections were asked for before (non-default option): the propagator and the caller's
+            # rate matrix must be what they were
+            ok, _ = guarded(ctx, "propmatrix", lambda: prop.get_PropagationMatrix(ts, corrections=0), kind + "/corrections")
+            if not ok:
+                return
+            ctx.close("set_rate/matrix", R.data, K, rtol=1e-12, scale=scale, where="after-corrections-call")
+            ctx.label("corrections-asked-first")
         ok, U = guarded(ctx, "propmatrix", lambda: prop.get_PropagationMatrix(ts), kind)
         if ok:
             U = numpy.asarray(U)
